@@ -81,6 +81,7 @@ TD15_THOROUGH = [('tdigest.rs', 'c15_td_endpoints_3', 'bounded(3 centroids)'),
 TD16_QUICK = [('tdigest.rs', 'c16_td_insert_weighted_inner', 'complete: all finite x, all finite positive w, all non-NaN min/max (loop-free)'),
               ('tdigest.rs', 'c16_td_zero_weight_noop', 'complete: all finite x (loop-free)'),
               ('tdigest.rs', 'c16_td_count_sum_exact', 'bounded(2 centroids; weights 1..4, grid j/4)'),
+              ('tdigest.rs', 'c16_td_first_read_sees_backlog', 'bounded(one weighted insert, grid values): first read merges the backlog'),
               ('tdigest.rs', 'c16_td_insert_weighted_wrapper', 'complete: public wrapper, all finite x, all finite positive w (loop-free)'),
               ('tdigest.rs', 'c19_td_clear_is_fresh', 'bounded(2 centroids + 1 backlog entry): clear() empties the digest'),
               ('tdigest.rs', 'c15_td_empty', 'complete: empty digest')]
@@ -232,7 +233,9 @@ PROPS['C18'] = {
     'level': 'proof',
     'verus_units': ['reservoir'],
     'kani': {'quick': [('reservoirsampling.rs', 'c18_reservoir_all_zero_rng_k1', 'bounded(k=1, 8 adds, all-zero RNG words; real rand + real f64 gap code)'),
-                       ('reservoirsampling.rs', 'c18_reservoir_all_zero_rng_k2', 'bounded(k=2, 12 adds, all-zero RNG words; real rand + real f64 gap code)')], 'thorough': []},
+                       ('reservoirsampling.rs', 'c18_reservoir_all_zero_rng_k2', 'bounded(k=2, 12 adds, all-zero RNG words; real rand + real f64 gap code)'),
+                       ('reservoirsampling.rs', 'c18_reservoir_extend_short_iter', 'bounded(k=3, iterator of <= 2 items): Extend::extend'),
+                       ('reservoirsampling.rs', 'c19_reservoir_clone_mid_fillup', 'bounded(k=4, one concrete history): clone during fill-up')], 'thorough': []},
     'explanation': 'Verus proof for all k >= 1, all i, every RNG behaviour: add() pushes while i < k, afterwards leaves the reservoir or replaces exactly one slot j < k by the new item, len == min(i+1, k), i+1, no index out of range; history lemma: stored stream positions are pairwise distinct, all < n, prefix in order until the (k+1)-th add.',
     'trusted_base': COMMON_TRUST + ['verus/prelude/rng.rs: gen_range(a..b) in [a, b) (panics on empty range: precondition)',
                                     'R3: the three f64 statements computing the gap length g are replaced by an arbitrary value g'],
@@ -243,7 +246,7 @@ PROPS['C18'] = {
 PROPS['C19'] = {
     'level': 'other',
     'verus_units': ['bloom', 'cuckoo', 'quotient', 'hll', 'reservoir', 'lossy', 'cmsheap'],
-    'kani': {'quick': TD19 + CMS_EMPTY + CMS_MERGE[:1] + HLL_MERGE + [('filters__quotientfilter.rs', 'c19_qf_clear_is_fresh', 'bounded(4 slots, 16-bit remainders; arbitrary array contents)'),
+    'kani': {'quick': TD19 + CMS_EMPTY + CMS_MERGE[:1] + HLL_MERGE + BLOOM_K[1:] + [('reservoirsampling.rs', 'c19_reservoir_clone_mid_fillup', 'bounded(k=4, one concrete history): clone during fill-up')] + [('filters__quotientfilter.rs', 'c19_qf_clear_is_fresh', 'bounded(4 slots, 16-bit remainders; arbitrary array contents)'),
                                                                   ('filters__cuckoofilter.rs', 'c19_cuckoo_clear_is_fresh', 'bounded(2x2 table)')],
              'thorough': []},
     'explanation': 'clear() contracts: every field that later behaviour reads equals the fresh value (hidden counters included) -- Verus for Bloom, Cuckoo, Quotient, HLL, Reservoir, LossyCounter, CMSHeap (unbounded); Kani for CMS, TDigest (n_samples!) (bounded). is_empty exactness likewise. Equal states + deterministic code => equal continuations.',
